@@ -200,7 +200,7 @@ func parseBV(s string) (*big.Int, bool) {
 
 func buildAsserts(u *Unit, o *Obligation) []*Term {
 	tb := u.tb
-	asserts := append([]*Term{}, u.facts[:o.NFacts]...)
+	asserts := append(append([]*Term{}, u.axioms...), u.facts[:o.NFacts]...)
 	asserts = append(asserts, o.Cond)
 	if !o.IsCover {
 		asserts = append(asserts, tb.Not(o.Prop))
